@@ -13,7 +13,7 @@ use serde_json::{json, Map, Value};
 use std::io::Write;
 use std::panic::{catch_unwind, AssertUnwindSafe};
 
-struct Item {
+pub(crate) struct Item {
     instr: Instruction,
     branch_to: Option<usize>, // index of the target item (len = program end)
     label: usize,             // != 0: a loop head
@@ -24,7 +24,7 @@ fn code_by_name(name: &str) -> Option<Code> {
     Code::values().find(|c| format!("{c:?}") == name)
 }
 
-fn gen_items(g: &mut Gen, forms: &std::collections::HashMap<String, Vec<String>>, n: usize) -> Vec<Item> {
+pub(crate) fn gen_items(g: &mut Gen, forms: &std::collections::HashMap<String, Vec<String>>, n: usize) -> Vec<Item> {
     let mut names: Vec<&String> = forms.keys().collect();
     names.sort();
     let mut items: Vec<Item> = Vec::new();
@@ -117,7 +117,7 @@ fn gen_items(g: &mut Gen, forms: &std::collections::HashMap<String, Vec<String>>
 }
 
 /// lay the program out so that it ends at `end`; returns (start, bytes, instruction start addresses)
-fn layout(items: &mut [Item], end: u64) -> Option<(u64, Vec<u8>, Vec<u64>)> {
+pub(crate) fn layout(items: &mut [Item], end: u64) -> Option<(u64, Vec<u8>, Vec<u64>)> {
     // lengths do not depend on the address for the forms used (rel8/rel32 are fixed by the Code; no RIP-relative operands)
     let mut lens = Vec::new();
     for it in items.iter() {
@@ -166,22 +166,22 @@ fn layout(items: &mut [Item], end: u64) -> Option<(u64, Vec<u8>, Vec<u64>)> {
 fn b8(v: u64) -> Value {
     json!(v.to_le_bytes().to_vec())
 }
-fn fl_json(fl: u64) -> Value {
+pub(crate) fn fl_json(fl: u64) -> Value {
     json!({"cf": fl & 1, "pf": (fl >> 2) & 1, "af": (fl >> 4) & 1, "zf": (fl >> 6) & 1, "sf": (fl >> 7) & 1, "df": (fl >> 10) & 1, "of": (fl >> 11) & 1})
 }
 
-struct Obs {
-    regs: [u64; 16],
-    xmm: [u128; 16],
-    fl: u64,
-    rip: u64,
-    count: u64,
-    finished: bool,
-    trace: Vec<Value>,
-    mh: String,
+pub(crate) struct Obs {
+    pub regs: [u64; 16],
+    pub xmm: [u128; 16],
+    pub fl: u64,
+    pub rip: u64,
+    pub count: u64,
+    pub finished: bool,
+    pub trace: Vec<Value>,
+    pub mh: String,
 }
 
-fn mem_hash(ax: &Axecutor) -> String {
+pub(crate) fn mem_hash(ax: &Axecutor) -> String {
     // FNV-1a over (start, length, protection, bytes) of every area, in area order
     let mut h: u64 = 0xcbf29ce484222325;
     let mut eat = |b: u8| {
@@ -199,7 +199,7 @@ fn mem_hash(ax: &Axecutor) -> String {
     format!("{h:016x}")
 }
 
-fn observe(ax: &Axecutor) -> Obs {
+pub(crate) fn observe(ax: &Axecutor) -> Obs {
     let mut regs = [0u64; 16];
     for (i, name) in crate::interp::GPRS.iter().take(16).enumerate() {
         regs[i] = ax.reg_read_64(crate::interp::reg_by_name(name).unwrap()).unwrap_or(0);
